@@ -104,7 +104,8 @@ void keep_events(bool on);
 // step budget (edges of library code)
 void budget_set(uint64_t edges);        // 0 = unlimited
 uint64_t budget_used();
-uint64_t edges_covered();               // distinct guards hit in this process so far
+uint64_t edges_covered();               // distinct guards hit in this process (or one of its forked evaluation children) so far
+void note_child_edges(uint64_t n);
 void budget_reset_counter();
 }
 
